@@ -114,7 +114,8 @@ def main():
             na.append({"property_id": pid, "reason": NOT_YET.get(pid, "check not built yet in this round; the property is decidable by bounded exhaustive exploration (see DESIGN.md) and is left unclaimed rather than claimed weakly")})
     m = {
         "version": 1,
-        "setup_cmd": "cd /verif/harness && CARGO_NET_OFFLINE=true cargo build --release --offline -p checks",
+        # a warm-up only: ./check builds the one binary it needs itself, so one checker that does not compile must not keep the others from running
+        "setup_cmd": "cd /verif/harness && (CARGO_NET_OFFLINE=true cargo build --release --offline -p checks --keep-going || true)",
         "hooks": {
             "guard": "cargo feature `verif` of crate duke (off by default)",
             "enable": "the harness depends on /repo/duke by path with features=[\"verif\"]; nothing else is changed",
